@@ -265,7 +265,9 @@ func (r *run) jwtHS() {
 		if ci < 3 || ci >= 5 {
 			v := jwt.NewHS256(hmacKeys[s.k], s.kid)
 			r.sweep(&sweepSpec{fam: "jwt-hs", tokid: tokid, issued: tok, sample: 3,
-				gens: []func([]byte, func(mutant)){genericMutants, b64Mutants, headerMutants},
+				gens: []func([]byte, func(mutant)){genericMutants, b64Mutants, headerMutants,
+					doubleEditMutants(r.rng.Intn, 400*r.scale),
+					charSubstMutants(map[bool]string{true: "", false: b64alpha + ".=\n"}[ci == 0])},
 				chk: func(t []byte) bool {
 					_, err := jwt.DecodeAndVerify(ctx, string(t), v, time.Unix(0, valid))
 					return err == nil
@@ -473,7 +475,8 @@ func (r *run) jwtRS() {
 		}
 		card := cardOf(s.ks)
 		spec := &sweepSpec{fam: "jwt-rs", tokid: tokid, issued: tok, sample: 2,
-			gens: []func([]byte, func(mutant)){genericMutants, b64Mutants, headerMutants},
+			gens: []func([]byte, func(mutant)){genericMutants, b64Mutants, headerMutants,
+				doubleEditMutants(r.rng.Intn, 600*r.scale), charSubstMutants("AQgw05-_.=\nZz")},
 			chk: func(t []byte) bool {
 				_, err := identity.VerifySelfToken(ctx, string(t), s.user, s.host, card, time.Unix(0, valid))
 				return err == nil
